@@ -120,6 +120,16 @@ func newPackage(program *loader.Program, pkgInfo *loader.PackageInfo, plugins []
 	for _, fileFuncs := range fileInfos {
 		reserved = union(reserved, fileFuncs.funcNames)
 	}
+	// Every name that the package declares is spoken for, whether it is called or not:
+	// a function that is only used as a value, a type, a variable or a constant.
+	// The functions of the generated file are left out, they are the ones that are generated again.
+	scope := pkgInfo.Pkg.Scope()
+	for _, name := range scope.Names() {
+		if file := program.Fset.File(scope.Lookup(name).Pos()); file != nil && filepath.Base(file.Name()) == derivedFilename {
+			continue
+		}
+		reserved[name] = struct{}{}
+	}
 	// The name of a call that still waits for the type of an argument is spoken for as well:
 	// a function that is made up in this pass and took that name would be the one the call resolves to after the reload.
 	for _, fileInfo := range fileInfos {
